@@ -21,6 +21,9 @@ VARIANTS = {
     "breaks": pygen.Layout(brk=True, indent="        ", trailing_newline=False),
     "semi": pygen.Layout(semi=True),
     "joins3_crlf": pygen.Layout(join=3, eol="\r\n", brk=True, comment="#"),
+    # inside brackets and after a backslash join leading whitespace is not indentation: any mix of blanks and tabs,
+    # whitespace-only and comment-only lines are allowed there (the lexer's tab rule applies to indentation only)
+    "breaks_mixedws": pygen.Layout(brk=True, join=4, brk_ws=" \t\n \t# c\n  \t", join_ws=" \t"),
 }
 # no space between tokens wherever the reference tokenizer still sees the same tokens ("a+b", "f(x)", "from...import x")
 TIGHT = pygen.Layout(tight=True)
@@ -115,6 +118,34 @@ def check(ctx, cases, pcases, label):
     ctx.extra.setdefault("programs", {})[label] = len(cases)
 
 
+def replay_layouts(ctx, cases):
+    """G for LayoutMC.tla: the real lexer delivers the logical program's token kinds for every rendered layout"""
+    import lexclasses as lc
+    from checks import lexcommon as lx
+    seen = {}
+    for c in cases:
+        seen.setdefault(tuple(c["inp"]), c)
+    cases = list(seen.values())
+    reqs = [{"op": "lex_raw", "src": lc.conc(c["inp"])} for c in cases]
+    resps = ctx.harness("default").run(reqs)
+    feats = {}
+    for c, q, r in zip(cases, reqs, resps):
+        ctx.replayed += 1
+        ctx.distinct_cases.add("lay" + q["src"])
+        feats[c["feat"]] = feats.get(c["feat"], 0) + 1
+        base = {"fam": "layoutmc", "case": c, "src": q["src"]}
+        if "toks" not in r:
+            ctx.mismatch("layoutmc.crash@" + c["feat"], {"src": q["src"], "observed": str(r)[:200]}, base)
+            continue
+        got = ["Word" if lx.tok_kind(t[0]) == "Name" else lx.tok_kind(t[0]) for t in r["toks"]]
+        got = [k for k in got if k not in ("Comment", "NonLogicalNewline")]
+        if r.get("err"):
+            ctx.mismatch("layoutmc.error@%s:%s" % (c["feat"], lx.tok_kind(r["err"]["kind"])), {"src": q["src"], "observed": r["err"]}, base)
+        elif got != c["kinds"]:
+            ctx.mismatch("layoutmc.tokens@" + c["feat"], {"src": q["src"], "expected": c["kinds"], "observed": got}, base)
+    ctx.extra["layoutmc_texts"] = feats
+
+
 def run(ctx):
     tier = "quick" if ctx.quick else "thorough"
     ctx.extra["rule"] = "every generated program x layout variants (quick: two rotating variants + redundant parentheses; thorough: all seven + parentheses); LayoutMC: all logical programs <= MaxLines x all layout choice combinations"
@@ -124,6 +155,12 @@ def run(ctx):
     if r.distinct < 100000:
         from vcheck import ToolError
         raise ToolError("vacuity: LayoutMC explored %d states" % r.distinct)
+    # the texts of the MaxLines = 2 configuration are replayed into the real lexer (the thorough configuration is model-checked only)
+    rq = r if ctx.quick else ctx.tlc("lexer", "LayoutMC", "LayoutMC_quick.cfg", timeout=5400, coverage=False)
+    if len(rq.replays) < 10000:
+        from vcheck import ToolError
+        raise ToolError("vacuity: LayoutMC emitted %d texts" % len(rq.replays))
+    replay_layouts(ctx, rq.replays)
     for name in SUBLANGS:
         cases = sr.generate(ctx, name)
         pcases = sr.generate(ctx, name, "parens")
@@ -136,6 +173,10 @@ def run(ctx):
 
 
 def replay(ctx, rec):
+    if rec["case"].get("fam") == "layoutmc":
+        ctx.states = ctx.transitions = 1
+        replay_layouts(ctx, [rec["case"]["case"]])
+        return
     c = rec["case"]
     ctx.states = ctx.transitions = 1
     h = ctx.harness("default")
